@@ -375,7 +375,7 @@ theorem in_use_not_evicted (cfg : Cfg) (s : State) (r : Req) (ka : Option Nat) (
 end Httpcore.C09
 
 namespace Httpcore.C09
-open Httpcore.Pool
+open Httpcore.Pool Httpcore.ConnLife Httpcore.LifeProps
 
 /-- the configuration the current source implements, read off the regenerated flags -/
 def srcCfg (maxConn maxKeepalive : Nat) (newAvail : Nat → Bool) : Cfg :=
@@ -425,5 +425,61 @@ theorem assign_follows_source (cfg : Cfg) (s : State) (r : Req) :
     · cases hi : s.conns.filter (fun c => c.idle && !(isReserved s.reserved c)) with
       | cons i tl => simp [avail, idles, ha, hl, hi, fresh]
       | nil => simp [avail, idles, ha, hl, hi]
+
+/-- **dead_idle_h1_closed_by_pass** (C09: "a connection whose keep-alive expiry has elapsed, or an idle HTTP/1.1 connection the server
+has already closed, is never handed to a request but closed") - composition: for an HTTP/1.1 connection object in *any* reachable
+state that is IDLE, if its socket is readable (the server has closed it) or the clock is beyond the moment it went idle plus
+`keepalive_expiry`, the house-keeping loop of the next pass removes it from the pool and hands it to `_close_connections` with reason
+"expired" - before the assignment loop looks at any connection. -/
+theorem dead_idle_h1_closed_by_pass (cfg : Cfg) (res : List Nat) (ka : Option Nat) (ops : List Op1) (now : Nat) (readable : Bool)
+    (id origin : Nat) (rest cur : List Conn) (closing : List (Conn × Reason))
+    (hidle : (run1 (init1 ka) ops).c.st = .idle)
+    (hdead : readable = true ∨ ∃ t k, (run1 (init1 ka) ops).idleSince = some t ∧ (run1 (init1 ka) ops).c.ka = some k ∧ now > t + k) :
+    let v := view1 now readable id origin (run1 (init1 ka) ops).c
+    cleanup cfg res (v :: rest) cur closing = cleanup cfg res rest (cur.erase v) (closing ++ [(v, .expired)]) := by
+  intro v
+  obtain ⟨t0, ht0, hexp⟩ := h1_expiry_exact ka ops now readable hidle
+  have hclosed : v.closed = false := by simp [v, view1, Gen.h1IsClosed, hidle]
+  have hexpired : v.expired = true := by
+    show Gen.h1HasExpired (run1 (init1 ka) ops).c now readable = true
+    rw [hexp]
+    rcases hdead with h | ⟨t, k, h1, h2, h3⟩
+    · simp [h]
+    · rw [ht0] at h1
+      cases h1
+      simp [h2, h3]
+  simp [cleanup, hclosed, hexpired]
+
+/-- the same for an idle HTTP/2 connection whose keep-alive expiry has elapsed (HTTP/2 has no "socket readable" rule) -/
+theorem expired_idle_h2_closed_by_pass (cfg : Cfg) (res : List Nat) (ka : Option Nat) (ops : List Op2) (now id origin : Nat)
+    (rest cur : List Conn) (closing : List (Conn × Reason))
+    (hidle : (run2 (init2 ka) ops).c.st = .idle)
+    (hdead : ∃ t k, (run2 (init2 ka) ops).idleSince = some t ∧ (run2 (init2 ka) ops).c.ka = some k ∧ now > t + k) :
+    let v := view2 now id origin (run2 (init2 ka) ops).c
+    cleanup cfg res (v :: rest) cur closing = cleanup cfg res rest (cur.erase v) (closing ++ [(v, .expired)]) := by
+  intro v
+  have hexp := h2_expiry_exact ka ops now hidle
+  obtain ⟨t, k, h1, h2, h3⟩ := hdead
+  have hclosed : v.closed = false := by simp [v, view2, Gen.h2IsClosed, hidle]
+  have hexpired : v.expired = true := by
+    show Gen.h2HasExpired (run2 (init2 ka) ops).c now = true
+    rw [hexp, h1, h2]
+    simp [h3]
+  simp [cleanup, hclosed, hexpired]
+
+/-- ... and an idle connection that is *not* dead (clock within the expiry, socket quiet) is not closed as expired: the keep-alive
+window is honoured exactly -/
+theorem live_idle_h1_not_expired (ka : Option Nat) (ops : List Op1) (now id origin : Nat)
+    (hidle : (run1 (init1 ka) ops).c.st = .idle)
+    (hlive : ∀ t k, (run1 (init1 ka) ops).idleSince = some t → (run1 (init1 ka) ops).c.ka = some k → now ≤ t + k) :
+    (view1 now false id origin (run1 (init1 ka) ops).c).expired = false := by
+  obtain ⟨t0, ht0, hexp⟩ := h1_expiry_exact ka ops now false hidle
+  show Gen.h1HasExpired (run1 (init1 ka) ops).c now false = false
+  rw [hexp]
+  cases hk : (run1 (init1 ka) ops).c.ka with
+  | none => simp
+  | some k =>
+    have := hlive t0 k ht0 hk
+    simp; omega
 
 end Httpcore.C09
